@@ -40,8 +40,10 @@ def generate(ctx, budget):
             if c.tag.endswith("/huge"):
                 huge_left -= 1
             cases.append(c)
-        else:
+        elif r < 0.92:
             cases.append(relay.gen_pairing(ctx.rng, ctx.rng.choice(relay.PAIRING_SHAPES), False))
+        else:
+            cases.append(relay.gen_burst(ctx.rng, False))
     cases += relay.gen_orders(("eof", "hup", "rst", "shw") if thorough else ("eof", "hup"))[:: (1 if thorough else 4)]
     return cases
 
